@@ -1346,3 +1346,183 @@ Proof.
   { induction ops0; simpl; intros; auto. apply IHops0. apply exec_op_gen_is_run. auto. }
   apply G. reflexivity.
 Qed.
+
+(* ================= soundness of the oracle's safety clauses =================
+   The scenario's own book-keeping (`scan`: kind, period and creation time of the i-th timer,
+   computed from the operations alone) agrees with the timers of the state the driver reaches. *)
+Definition statics (tm : timer) : kind * N * N := (k_kind tm, k_dur tm, k_born tm).
+Definition ti_statics (ti : tinfo) : kind * N * N := (ti_kind ti, ti_dur ti, ti_born ti).
+
+Lemma map_upd_same : forall {A B} (f : A -> B) l i x y,
+  nth_error l i = Some y -> f x = f y -> map f (upd l i x) = map f l.
+Proof.
+  induction l; destruct i; simpl; intros; try discriminate; auto.
+  - inversion H; subst. congruence.
+  - f_equal. eapply IHl; eauto.
+Qed.
+
+Definition quiet (l : label) : bool :=
+  match l with Advance _ => false | Mk _ _ => false | _ => true end.
+
+Lemma step_quiet : forall s l, quiet l = true ->
+  now (step s l) = now s /\ map statics (timers (step s l)) = map statics (timers s).
+Proof.
+  intros s l Q. destruct l; simpl in Q; try discriminate; unfold step; simpl; auto.
+  - destruct (nth_error (timers s) i) as [tm|] eqn:N; auto. unfold poll_timer.
+    assert (E : statics (poll_tm (now s) (g_status (tgt s)) tm) = statics tm).
+    { destruct (poll_tm_same (now s) (g_status (tgt s)) tm) as (K & Du & B & _).
+      unfold statics. congruence. }
+    destruct (poll_eff _ _ _); simpl; split; auto; eapply map_upd_same; eauto.
+  - destruct (nth_error (timers s) i) as [tm|] eqn:N; auto.
+    destruct (finished (k_pc tm)); simpl; auto. split; auto. eapply map_upd_same; eauto.
+Qed.
+
+Definition same_frame (d d' : drv) : Prop :=
+  now (d_s d') = now (d_s d) /\ map statics (timers (d_s d')) = map statics (timers (d_s d)).
+
+Lemma frame_refl : forall d, same_frame d d.
+Proof. split; auto. Qed.
+Lemma frame_s : forall d d', d_s d' = d_s d -> same_frame d d'.
+Proof. unfold same_frame. intros d d' E. rewrite E. auto. Qed.
+Lemma frame_trans : forall a b c, same_frame a b -> same_frame b c -> same_frame a c.
+Proof. unfold same_frame. intros a b c (A1 & A2) (B1 & B2). split; congruence. Qed.
+Lemma frame_dstep : forall d l, quiet l = true -> same_frame d (dstep d l).
+Proof. intros. unfold same_frame, dstep. simpl. apply step_quiet. auto. Qed.
+
+Lemma frame_run_timer : forall f i d, same_frame d (run_timer f i d).
+Proof.
+  induction f; simpl; intros; [apply frame_refl|]. destruct (enabled (d_s d) i); [|apply frame_refl].
+  eapply frame_trans; [apply (frame_dstep d (Poll i)); reflexivity|apply IHf].
+Qed.
+
+Lemma frame_run_tgt : forall f d, same_frame d (run_tgt f d).
+Proof.
+  induction f; simpl; intros; [apply frame_refl|]. destruct (tgt_enabled _); [|apply frame_refl].
+  eapply frame_trans; [apply (frame_dstep d TgtPoll); reflexivity|apply IHf].
+Qed.
+
+Lemma frame_wake_tgt : forall d, same_frame d (wake_tgt d).
+Proof. intros. unfold wake_tgt. destruct (tgt_enabled _); apply frame_s; reflexivity. Qed.
+
+Lemma frame_settle : forall tf f d, same_frame d (settle tf f d).
+Proof.
+  induction f; cbn [settle]; intros; [apply frame_refl|].
+  destruct (d_q d) as [|[i|] q]; [apply frame_refl| |].
+  - eapply frame_trans; [|apply IHf].
+    eapply frame_trans; [|apply frame_wake_tgt].
+    eapply frame_trans; [|apply frame_run_timer]. apply frame_s; reflexivity.
+  - eapply frame_trans; [|apply IHf]. eapply frame_trans; [|apply frame_run_tgt]. apply frame_s; reflexivity.
+Qed.
+
+Lemma frame_wake_fired : forall d, same_frame d (wake_fired d).
+Proof. intros. apply frame_s; reflexivity. Qed.
+
+(* one operation: the clock and the timers' identities move exactly as `scan` says *)
+Lemma exec_op_scan : forall tf f d pr o t acc,
+  now (d_s d) = t -> map statics (timers (d_s d)) = map ti_statics acc ->
+  let d' := fst (exec_op_gen tf f (d, pr) o) in
+  match o with
+  | OMk k dur => now (d_s d') = t /\ map statics (timers (d_s d')) = map ti_statics (acc ++ [mkTinfo k dur t None])
+  | OAdv dt => now (d_s d') = t + dt /\ map statics (timers (d_s d')) = map ti_statics acc
+  | _ => now (d_s d') = t /\ map statics (timers (d_s d')) = map ti_statics acc
+  end.
+Proof.
+  intros tf f d pr o t acc NW ST d'. subst d'.
+  assert (FR : forall d2, same_frame d d2 -> now (d_s d2) = t /\ map statics (timers (d_s d2)) = map ti_statics acc).
+  { intros d2 (A & B). split; congruence. }
+  destruct o; unfold exec_op_gen; cbn [fst].
+  - split.
+    + unfold dstep. simpl. unfold step. simpl. auto.
+    + unfold dstep. simpl. unfold step. simpl. rewrite !map_app, ST. simpl. unfold statics, ti_statics. simpl.
+      rewrite NW. reflexivity.
+  - apply FR. apply (frame_dstep d (Abort i)). reflexivity.
+  - apply FR. eapply frame_trans; [apply (frame_dstep d (TStop r)); reflexivity|apply frame_wake_tgt].
+  - apply FR. eapply frame_trans; [apply (frame_dstep d TKill); reflexivity|apply frame_wake_tgt].
+  - apply FR. eapply frame_trans; [apply (frame_dstep d TDrain); reflexivity|apply frame_wake_tgt].
+  - apply FR. apply frame_settle.
+  - destruct (FR _ (frame_settle tf f d)) as (A & B). unfold wake_fired, dstep. simpl. unfold step. simpl.
+    split; [lia|auto].
+  - apply FR. apply frame_settle.
+  - apply FR. eapply frame_trans; [apply (frame_dstep d TgtStart); reflexivity|apply frame_wake_tgt].
+Qed.
+
+Lemma scan_abort_statics : forall acc i ti t,
+  nth_error acc i = Some ti ->
+  map ti_statics (upd acc i (mkTinfo (ti_kind ti) (ti_dur ti) (ti_born ti) (Some t))) = map ti_statics acc.
+Proof. intros. eapply map_upd_same; eauto. Qed.
+
+Lemma exec_scan : forall tf f ops d pr t acc,
+  now (d_s d) = t -> map statics (timers (d_s d)) = map ti_statics acc ->
+  map statics (timers (d_s (fst (fold_left (exec_op_gen tf f) ops (d, pr))))) = map ti_statics (scan ops t acc).
+Proof.
+  induction ops as [|o ops IH]; intros d pr t acc NW ST; [simpl; auto|].
+  cbn [fold_left]. pose proof (exec_op_scan tf f d pr o t acc NW ST) as H.
+  destruct (exec_op_gen tf f (d, pr) o) as (d1, pr1) eqn:E. cbn [fst] in H.
+  destruct o; cbn [scan]; try (destruct H as (H1 & H2); apply IH; auto; fail).
+  destruct H as (H1 & H2). apply IH; auto.
+  destruct (nth_error acc i) as [ti|] eqn:N; auto. destruct (ti_abort ti); auto.
+  rewrite scan_abort_statics; auto.
+Qed.
+
+Lemma scan_settle : forall ops t acc, scan (ops ++ [OSettle]) t acc = scan ops t acc.
+Proof. induction ops as [|o ops IH]; intros; simpl; auto. destruct o; auto. Qed.
+
+Lemma count_nodup : forall (log : list (nat * N * N)) i k t,
+  NoDup (log_pairs log) -> In (i, k, t) log -> count_log i k log = 1%nat.
+Proof.
+  induction log as [|[[j k'] t'] log IH]; simpl; intros i k t ND IN; [contradiction|].
+  inversion ND; subst. unfold count_log in *. simpl.
+  destruct IN as [E|IN].
+  - inversion E; subst. rewrite Nat.eqb_refl, N.eqb_refl. simpl. f_equal.
+    destruct (filter _ log) as [|[[a b] c] r] eqn:F; auto. exfalso.
+    assert (X : In (a, b, c) (filter (fun e => let '(j0, k'0, _) := e in Nat.eqb i j0 && (k =? k'0)) log))
+      by (rewrite F; left; auto).
+    apply filter_In in X. destruct X as (X1 & X2). apply andb_prop in X2. destruct X2 as (X2 & X3).
+    apply Nat.eqb_eq in X2. apply N.eqb_eq in X3. subst. apply H1.
+    unfold log_pairs. apply in_map_iff. exists (a, b, c). auto.
+  - destruct (Nat.eqb i j && (k =? k')) eqn:B.
+    + exfalso. apply andb_prop in B. destruct B as (B1 & B2). apply Nat.eqb_eq in B1. apply N.eqb_eq in B2. subst.
+      apply H1. unfold log_pairs. apply in_map_iff. exists (j, k', t). auto.
+    + eapply IH; eauto.
+Qed.
+
+(* the safety clauses of the executable oracle accept every run of the model's driver *)
+Theorem oracle_sound_safety : forall pk ops, check_C12_safety ops (observe pk ops) = true.
+Proof.
+  intros pk ops. unfold check_C12_safety, observe.
+  pose proof (exec_is_run pk (ops ++ [OSettle])) as ER.
+  assert (SC : map statics (timers (d_s (fst (exec pk (ops ++ [OSettle]))))) = map ti_statics (scan ops 0 [])).
+  { unfold exec, exec_op. rewrite <- (scan_settle ops 0 []). generalize FUEL. intro f. apply exec_scan; auto. }
+  destruct (exec pk (ops ++ [OSettle])) as (d, pr). cbn [fst] in *. cbn [o_log o_exit].
+  set (s := d_s d) in *.
+  destruct (Inv2_run (rev (d_ls d)) 0 pk) as ((TO & EO & ND & SCm) & OK). pose proof (born_ok_run (rev (d_ls d)) 0 pk) as BO.
+  rewrite <- ER in *.
+  assert (NDL : NoDup (log_pairs (g_log (tgt s)))).
+  { destruct (ok_deliv _ OK) as (rest & D & _). rewrite <- D in ND. apply NoDup_app_l in ND. auto. }
+  apply andb_true_intro. split.
+  - apply forallb_forall. intros [[i k] t] IN. unfold check_entry_safe.
+    destruct (ok_log _ OK _ _ _ IN) as (_ & tm & N & NI & MK & K1 & K2 & C).
+    assert (NT : nth_error (map ti_statics (scan ops 0 [])) i = Some (statics tm)).
+    { rewrite <- SC. rewrite nth_error_map, N. reflexivity. }
+    rewrite nth_error_map in NT. destruct (nth_error (scan ops 0 []) i) as [ti|]; [|discriminate].
+    simpl in NT. inversion NT as [[E1 E2 E3]]. rewrite E1, E2, E3.
+    rewrite (count_nodup _ _ _ _ NDL IN). rewrite Nat.eqb_refl, andb_true_r.
+    apply andb_true_intro. split.
+    + destruct MK as [MK|MK]; rewrite MK.
+      * destruct (after_sent _ _ (TO _ _ N) MK) as (S1 & _). apply N.eqb_eq. lia.
+      * apply N.leb_le. auto.
+    + apply N.leb_le. pose proof (le_ceil (k_t0 tm + k * k_dur tm)). destruct (BO _ _ N); lia.
+  - apply forallb_forall. intros [[i k] t] IN. simpl.
+    destruct (g_exit (tgt s)) as [[[r o] te]|] eqn:GE; auto.
+    apply N.leb_le. eapply (ok_exit_log _ OK); eauto.
+Qed.
+
+(* ... and they are part of the oracle that judges the implementation *)
+Theorem oracle_includes_safety : forall pk ops o, check_C12 pk ops o = true -> check_C12_safety ops o = true.
+Proof.
+  unfold check_C12, check_C12_safety. intros pk ops o H.
+  repeat (apply andb_prop in H; destruct H as (H & ?)).
+  apply andb_true_intro. split; auto.
+  rewrite forallb_forall in *. intros e IN. specialize (H e IN).
+  unfold check_entry in H. apply andb_prop in H. tauto.
+Qed.
